@@ -84,6 +84,9 @@ func attrStream(c *lib.Ctx) {
 				if n%7 == 0 {
 					key = lib.Pick(rg, []string{"go", "k", "setdefaults", "key"}) // an ordinary key
 				}
+				if kind == "scalar" && k == 0 {
+					key = "setdefault" // the one method name pyFrozenDict.Property treats itself
+				}
 				var member, lit *aspgen.Val
 				switch kind {
 				case "list":
@@ -143,6 +146,10 @@ func attrStream(c *lib.Ctx) {
 						c.Fail("frozen-"+kind+"-"+a.name, fmt.Sprintf("%s on a member of an imported dict (frozen with it), read as D%s: %s; with the dict defined locally: %s",
 							a.name, pathSrc(path), oi, ol), in)
 						c.Hist("attr-outcome", "consumer-differs")
+					case key == "setdefault" && rl.Err == "" && strings.Contains(ri.Err, "dict is immutable"):
+						// pyFrozenDict.Property refuses the NAME setdefault before looking for a key of that name: the listed finding
+						c.Fail("frozen-dict-attr-setdefault-key", fmt.Sprintf("D%s on an imported dict that has a KEY \"setdefault\": %s; with the dict defined locally: %s", pathSrc(path), oi, ol), in)
+						c.Hist("attr-outcome", "setdefault-key")
 					default:
 						c.Fail("attr-"+key+"-"+a.name, fmt.Sprintf("D%s on an imported dict with a KEY %q: %s; D%s there: %s; D%s with the dict defined locally: %s",
 							pathSrc(path), key, oi, pathSrc(idxPath), ox, pathSrc(path), ol), in)
